@@ -1,7 +1,7 @@
 //! Kani harnesses: selector AST leaf semantics (C04, C15). Child module of `selectors_vm::ast`.
 use super::*;
 
-const W: i32 = 1 << 10; // @thorough 4096
+const W: i32 = 1024; // @thorough 4096
 
 fn reference(step: i32, offset: i32, index: i32) -> bool {
     // ∃ n ≥ 0. step·n + offset = index, over mathematical integers (i64 is wide enough)
